@@ -44,6 +44,11 @@ func (s *sweepReader) Read(p []byte) (int, error) {
 	if i > 2 {
 		i = 2
 	}
+	if s.reads > 4096 {
+		// a draw that keeps rejecting the sentinel word (accepted when it
+		// comes first) would never return
+		panic("verif: bounded draw does not terminate (more than 4096 reads)")
+	}
 	binary.BigEndian.PutUint32(p, s.w[i])
 	s.reads++
 	return 4, nil
@@ -66,6 +71,11 @@ func (r *longReader) Read(p []byte) (int, error) {
 	}
 	if r.pos+n > len(r.b) {
 		r.dry = true
+		if r.reads > len(r.b)+4096 {
+			// the zero words served after the script ran dry are rejected
+			// for ever: stop the draw (drawLong reports it as not ok)
+			panic("verif: bounded draw does not terminate on a dry source")
+		}
 		for i := range p[:n] {
 			p[i] = 0
 		}
@@ -236,17 +246,9 @@ func c01Run(c *core.Ctx) {
 			break
 		}
 		// calibrate the sentinel: a word that is accepted on its own
-		var sent, sentRes uint32
-		found := false
-		for _, cand := range []uint32{1, 0, 2, 3} {
-			r, reads, p := draw(n, cand, cand, cand)
-			if !p && reads == 1 {
-				sent, sentRes, found = cand, r, true
-				break
-			}
-		}
+		sent, sentRes, found := c01Sentinel(draw, n)
 		if !found {
-			c.Violation(fmt.Sprintf("n=%d no-accepted-sentinel", n), "none of the words 0..3 is accepted in one read", map[string]interface{}{"n": n})
+			c.Violation(fmt.Sprintf("n=%d no-accepted-sentinel", n), "none of 70 candidate words spread over the 32-bit range is accepted in one read", map[string]interface{}{"n": n})
 			continue
 		}
 		width := uint(c01Width(n))
@@ -261,48 +263,64 @@ func c01Run(c *core.Ctx) {
 		}
 		var rejected, bad uint64
 		var firstRej, lastRej []uint32
-		for w := lo; w < hi; w++ {
-			rd.w[0] = uint32(w)
-			rd.w[1] = sent
-			rd.w[2] = sent
-			rd.reads = 0
-			res := spg.VerifRandomUint32n(n)
-			if res >= n {
-				bad++
-				if bad <= 3 {
-					c.Violation(fmt.Sprintf("n=%d out-of-range", n), fmt.Sprintf("word %#x gave %d >= n", w, res), map[string]interface{}{"n": n, "words": []uint32{uint32(w), sent}})
-				}
-				continue
-			}
-			switch rd.reads {
-			case 1:
-				if private != nil {
-					private[res]++
-				} else {
-					satAdd(shared, uint64(res), width)
-				}
-			case 2:
-				rejected++
-				if len(firstRej) < 2048 {
-					firstRej = append(firstRej, uint32(w))
-				} else {
-					if len(lastRej) == 2048 {
-						lastRej = lastRej[1:]
-					}
-					lastRej = append(lastRej, uint32(w))
-				}
-				if res != sentRes {
+		from := lo
+		sweep := func() {
+			defer func() {
+				if x := recover(); x != nil {
 					bad++
 					if bad <= 3 {
-						c.Violation(fmt.Sprintf("n=%d not-redrawn", n), fmt.Sprintf("rejected word %#x followed by %#x gave %d, the continuation alone gives %d", w, sent, res, sentRes), map[string]interface{}{"n": n, "words": []uint32{uint32(w), sent}})
+						c.Violation(fmt.Sprintf("n=%d panic", n), fmt.Sprintf("word %#x then %#x: %v", rd.w[0], sent, x), map[string]interface{}{"n": n, "words": []uint32{rd.w[0], sent}})
+					}
+					from = uint64(rd.w[0]) + 1
+				}
+			}()
+			for w := from; w < hi; w++ {
+				rd.w[0] = uint32(w)
+				rd.w[1] = sent
+				rd.w[2] = sent
+				rd.reads = 0
+				res := spg.VerifRandomUint32n(n)
+				if res >= n {
+					bad++
+					if bad <= 3 {
+						c.Violation(fmt.Sprintf("n=%d out-of-range", n), fmt.Sprintf("word %#x gave %d >= n", w, res), map[string]interface{}{"n": n, "words": []uint32{uint32(w), sent}})
+					}
+					continue
+				}
+				switch rd.reads {
+				case 1:
+					if private != nil {
+						private[res]++
+					} else {
+						satAdd(shared, uint64(res), width)
+					}
+				case 2:
+					rejected++
+					if len(firstRej) < 2048 {
+						firstRej = append(firstRej, uint32(w))
+					} else {
+						if len(lastRej) == 2048 {
+							lastRej = lastRej[1:]
+						}
+						lastRej = append(lastRej, uint32(w))
+					}
+					if res != sentRes {
+						bad++
+						if bad <= 3 {
+							c.Violation(fmt.Sprintf("n=%d not-redrawn", n), fmt.Sprintf("rejected word %#x followed by %#x gave %d, the continuation alone gives %d", w, sent, res, sentRes), map[string]interface{}{"n": n, "words": []uint32{uint32(w), sent}})
+						}
+					}
+				default:
+					bad++
+					if bad <= 3 {
+						c.Violation(fmt.Sprintf("n=%d reads", n), fmt.Sprintf("word %#x: %d reads (not whole words, or an accepted word re-drawn)", w, rd.reads), map[string]interface{}{"n": n, "words": []uint32{uint32(w), sent}})
 					}
 				}
-			default:
-				bad++
-				if bad <= 3 {
-					c.Violation(fmt.Sprintf("n=%d reads", n), fmt.Sprintf("word %#x: %d reads (not whole words, or an accepted word re-drawn)", w, rd.reads), map[string]interface{}{"n": n, "words": []uint32{uint32(w), sent}})
-				}
 			}
+			from = hi
+		}
+		for from < hi && bad < 64 {
+			sweep()
 		}
 		if private != nil {
 			for i, v := range private {
@@ -385,6 +403,23 @@ func c01Run(c *core.Ctx) {
 	}
 }
 
+// c01Sentinel finds a word that the draw with bound n accepts on its own (a
+// rejection sampler may reject at either end of the range, so small words are
+// tried first and then words spread over the whole range).
+func c01Sentinel(draw func(n uint32, w0, w1, w2 uint32) (uint32, int, bool), n uint32) (sent, sentRes uint32, found bool) {
+	cands := []uint32{1, 0, 2, 3, 1<<32 - 2, 1 << 31, 1<<31 - 1}
+	for i := uint32(1); i < 64; i++ {
+		cands = append(cands, i<<26+i)
+	}
+	for _, cand := range cands {
+		r, reads, p := draw(n, cand, cand, cand)
+		if !p && reads == 1 {
+			return cand, r, true
+		}
+	}
+	return 0, 0, false
+}
+
 // second layer: many more bounds on a boundary word set, necessary conditions
 // only; any disagreement with the textbook sampler is reported as a note (a
 // candidate for a full sweep), not as a violation.
@@ -431,32 +466,35 @@ func c01Boundary(c *core.Ctx, draw func(n uint32, w0, w1, w2 uint32) (uint32, in
 			}
 		}
 		perOutcome := map[uint32]uint64{}
-		sentRes, sr, _ := draw(n, 1, 1, 1)
-		sentOK := sr == 1
+		sent, sentRes, sentOK := c01Sentinel(draw, n)
+		if !sentOK {
+			c.Violation(fmt.Sprintf("boundary n=%d no-accepted-sentinel", n), "none of 70 candidate words spread over the 32-bit range is accepted in one read", map[string]interface{}{"n": n})
+			continue
+		}
 		for w := range words {
-			res, reads, p := draw(n, w, 1, 1)
+			res, reads, p := draw(n, w, sent, sent)
 			c.Count("boundary_runs", 1)
 			if p {
-				c.Violation(fmt.Sprintf("boundary n=%d panic", n), fmt.Sprintf("word %#x panicked", w), map[string]interface{}{"n": n, "words": []uint32{w, 1, 1}})
+				c.Violation(fmt.Sprintf("boundary n=%d panic", n), fmt.Sprintf("word %#x panicked", w), map[string]interface{}{"n": n, "words": []uint32{w, sent, sent}})
 				continue
 			}
 			if res >= n {
-				c.Violation(fmt.Sprintf("boundary n=%d out-of-range", n), fmt.Sprintf("word %#x gave %d", w, res), map[string]interface{}{"n": n, "words": []uint32{w, 1, 1}})
+				c.Violation(fmt.Sprintf("boundary n=%d out-of-range", n), fmt.Sprintf("word %#x gave %d", w, res), map[string]interface{}{"n": n, "words": []uint32{w, sent, sent}})
 				continue
 			}
 			if reads == 1 {
 				perOutcome[res]++
 				if perOutcome[res] > K {
-					c.Violation(fmt.Sprintf("boundary n=%d overfull", n), fmt.Sprintf("outcome %d is produced by more than floor(2^32/n)=%d accepted words", res, K), map[string]interface{}{"n": n, "words": []uint32{w, 1, 1}})
+					c.Violation(fmt.Sprintf("boundary n=%d overfull", n), fmt.Sprintf("outcome %d is produced by more than floor(2^32/n)=%d accepted words", res, K), map[string]interface{}{"n": n, "words": []uint32{w, sent, sent}})
 				}
 			} else if sentOK && reads == 2 && res != sentRes {
-				c.Violation(fmt.Sprintf("boundary n=%d not-redrawn", n), fmt.Sprintf("rejected word %#x then 1 gave %d, 1 alone gives %d", w, res, sentRes), map[string]interface{}{"n": n, "words": []uint32{w, 1, 1}})
+				c.Violation(fmt.Sprintf("boundary n=%d not-redrawn", n), fmt.Sprintf("rejected word %#x then %#x gave %d, %#x alone gives %d", w, sent, res, sent, sentRes), map[string]interface{}{"n": n, "words": []uint32{w, sent, sent}})
 			}
 			// textbook comparison: promotes, never convicts
 			var tb uint32
 			tbReads := 1
 			if uint64(w) >= K*uint64(n) {
-				tb, tbReads = 1%n, 2
+				tb, tbReads = sent%n, 2
 			} else {
 				tb = w % n
 			}
@@ -467,14 +505,14 @@ func c01Boundary(c *core.Ctx, draw func(n uint32, w0, w1, w2 uint32) (uint32, in
 		}
 		// the draw must use all 32 bits of a word however the source chunks it
 		for _, w := range []uint32{0x01020304, 0xfffefdfc, 0x80000001, uint32(K*uint64(n)) - 1, 0x00010000, 0x00000100} {
-			want, used0, ok0 := drawLong(n, []uint32{w, 1, 1, 1}, 0)
+			want, used0, ok0 := drawLong(n, []uint32{w, sent, sent, sent}, 0)
 			for _, chunk := range []int{1, 2, 3} {
-				got, used, ok := drawLong(n, []uint32{w, 1, 1, 1}, chunk)
+				got, used, ok := drawLong(n, []uint32{w, sent, sent, sent}, chunk)
 				c.Count("boundary_runs", 1)
 				c.Count("chunked_draws", 1)
 				if ok0 && (!ok || got != want || used != used0) {
 					c.Violation(fmt.Sprintf("boundary n=%d chunked", n), fmt.Sprintf("word %#x delivered %d byte(s) per read gives %d (%d words used); delivered whole it gives %d (%d words)", w, chunk, got, used, want, used0),
-						map[string]interface{}{"n": n, "words": []uint32{w, 1, 1, 1}, "chunk": chunk})
+						map[string]interface{}{"n": n, "words": []uint32{w, sent, sent, sent}, "chunk": chunk})
 				}
 			}
 		}
